@@ -147,6 +147,23 @@ pub fn wake_rule<F: HasNode>(sh: &Shape, futs: &[ManuallyDrop<F>; N], skip: usiz
     ok
 }
 
+/// C06 on the state the wrappers leave behind: somebody (other than `skip`) holds an unconsumed wake-up, or nobody waits, or
+/// the longest-waiting request does not fit into the free permits.  (The state machine's transitions are proved to keep
+/// this by Verus; asserting it here as well catches a WRAPPER that bypasses the state machine, e.g. a "fast path".)
+pub fn head_served<F: HasNode>(futs: &[ManuallyDrop<F>; N], state: &SemaphoreState, skip: usize) -> bool {
+    let mut i = 0;
+    while i < N {
+        if i != skip && nstate(futs[i].node_ref()) == 2 {
+            return true;
+        }
+        i += 1;
+    }
+    match state.waiters.peek_last() {
+        None => true,
+        Some(h) => h.required_permits > state.permits,
+    }
+}
+
 // ------------------------------------------------------------------------------------------------
 // borrowed flavour
 // ------------------------------------------------------------------------------------------------
@@ -220,10 +237,12 @@ fn check_drop_future(fair: bool, st: [u8; N], queue: &[usize]) {
     let i = 0;
     let mut w = world(fair, st, queue);
     unsafe { link(&mut w) };
+    let served_before = head_served(&w.futs, &w.sem.state.lock(), N);
     kit::arm();
     unsafe { ManuallyDrop::drop(&mut w.futs[i]) };
     kit::disarm();
     let st = w.sem.state.lock();
+    assert!(!served_before || head_served(&w.futs, &st, i), "[C06] cancelling any future (woken or ahead in the queue) leaves the longest-waiting request served: it holds a wake-up or does not fit");
     assert!(!lv::contains(&st.waiters, &w.futs[i].wait_node), "[C01] a dropped future is no longer in the wait queue");
     assert!(st.permits == w.sh.permits, "[C05] cancelling takes and returns no permits");
     assert!(wake_rule(&w.sh, &w.futs, i), "[C06] every request notified by a cancellation is woken exactly once; nobody else is woken");
@@ -235,11 +254,13 @@ fn check_release(fair: bool, st: [u8; N], queue: &[usize]) {
     unsafe { link(&mut w) };
     let n: usize = kani::any();
     kani::assume(n < 8);
+    let served_before = head_served(&w.futs, &w.sem.state.lock(), N);
     kit::arm();
     w.sem.release(n);
     kit::disarm();
     assert!(w.sem.permits() == w.sh.permits + n, "[C05] release(n) adds exactly n permits");
     assert!(wake_rule(&w.sh, &w.futs, N), "[C06] every request notified by a release is woken exactly once through its latest waker; nobody else is woken");
+    assert!(!served_before || head_served(&w.futs, &w.sem.state.lock(), N), "[C06] after release() the longest-waiting request is not stranded: it holds a wake-up or does not fit");
     assert!(queue_ok(fair, &w.futs, &w.sem.state.lock()), "[C01] queue consistent after release");
     let mut j = 0;
     while j < N {
@@ -254,6 +275,7 @@ fn check_releaser(fair: bool, st: [u8; N], queue: &[usize]) {
     let sp: &'static Sem = unsafe { &*(&w.sem as *const Sem) };
     let p: usize = kani::any();
     kani::assume(p < 8);
+    let served_before = head_served(&w.futs, &w.sem.state.lock(), N);
     let mut rel = GenericSemaphoreReleaser::<'static, NoopLock> { semaphore: sp, permits: p };
     let disarm: bool = kani::any();
     kit::arm();
@@ -265,6 +287,7 @@ fn check_releaser(fair: bool, st: [u8; N], queue: &[usize]) {
     kit::disarm();
     assert!(w.sem.permits() == w.sh.permits + (if disarm { 0 } else { p }), "[C05] dropping a releaser returns exactly its permits exactly once (zero after disarm)");
     assert!(wake_rule(&w.sh, &w.futs, N), "[C06] every request notified when a releaser is dropped is woken exactly once; nobody else is woken");
+    assert!(!served_before || head_served(&w.futs, &w.sem.state.lock(), N), "[C06] after a releaser is dropped the longest-waiting request is not stranded: it holds a wake-up or does not fit");
 }
 
 fn check_try_acquire(fair: bool, st: [u8; N], queue: &[usize]) {
